@@ -140,15 +140,18 @@ def evaluate(case):
                     sample = [list(start), rx, ry, rot, large, sweep, list(end)]
     # path level: relative arc through SVGPath.arcs_to_cubics must equal the direct call
     rot = case["rots"][0]
+    # path level: the current point is not the origin, and the relative offsets include (0,0) and the
+    # current point's own coordinates (an offset that merely *looks* like the start point)
+    pstart = start if start != (0.0, 0.0) else (10.0, 7.5)
     for large, sweep in FLAGS:
-        for e in ends_[:: max(1, len(ends_) // 9)]:
+        for e in ends_[:: max(1, len(ends_) // 9)] + [(0.0, 0.0), pstart, (pstart[0], 0.0)]:
             n += 1
-            d = f"M{start[0]},{start[1]} a{rx} {ry} {rot} {large} {sweep} {e[0]},{e[1]}"
+            d = f"M{pstart[0]},{pstart[1]} a{rx} {ry} {rot} {large} {sweep} {e[0]},{e[1]}"
             try:
                 got = list(SVGPath(d=d).arcs_to_cubics())[1:]
-                end = (start[0] + e[0], start[1] + e[1])
+                end = (pstart[0] + e[0], pstart[1] + e[1])
                 want = []
-                for c1, c2, p1 in arc_to_cubic(start, rx, ry, rot, large, sweep, end):
+                for c1, c2, p1 in arc_to_cubic(pstart, rx, ry, rot, large, sweep, end):
                     want.append(("L", tuple(p1)) if c1 is None else ("C", tuple(c1) + tuple(c2) + tuple(p1)))
                 ok = len(got) == len(want) and all(g[0] == w[0] and all(abs(a - b) <= 1e-9 * max(1, abs(b)) for a, b in zip(g[1], w[1])) for g, w in zip(got, want))
                 outs["path-level"] += 1
